@@ -174,3 +174,14 @@ Theorem C14_gauss_rsample_logprob : forall p noise, length noise = length p ->
   = sumR (map2 (fun ml e => - e ^ 2 / 2 - snd ml - ln (sqrt (2 * PI))) p noise).
 Proof. exact gauss_logprob_rsample. Qed.
 Print Assumptions C14_gauss_rsample_logprob.
+
+(* MultiCategorical: the split pieces are consecutive, non-overlapping slices of the flat logits (their concatenation is
+   the first sum(action_dims) logits), one piece per action dimension *)
+Theorem C14_split_logits_partition : forall sizes flat,
+  concat (split_logits sizes flat) = firstn (fold_right Nat.add 0%nat sizes) flat /\
+  length (split_logits sizes flat) = length sizes.
+Proof. exact split_logits_concat. Qed.
+Print Assumptions C14_split_logits_partition.
+
+Example C14_split_logits_example : split_logits [2; 3]%nat [1; 2; 3; 4; 5] = [[1; 2]; [3; 4; 5]].
+Proof. reflexivity. Qed.
